@@ -140,6 +140,11 @@ def run(ctx, model_ok, deep=False):
             if z or n_ec <= 3:
                 conv.append((("ec", "P-256" + ("-leading-zero" if z else "")), k))
         conv.append((("oct", 40), K.Key("oct", k=os.urandom(40), bits=320)))
+        # raw oct key files are key material byte for byte, whatever their last byte is
+        for n in (32, 40, 48, 64):
+            for tail in (b"\n", b"\r", b"\r\n", b" ", b"\x00", b"="):
+                kb = os.urandom(n - len(tail)) + tail
+                conv.append((("oct", "%d-ending-%r" % (n, tail)), K.Key("oct", k=kb, bits=8 * n)))
         for spec, key in conv:
             for private in ((True, False) if key.kind != "oct" else (True,)):
                 src = os.path.join(d, "in.pem")
@@ -175,6 +180,14 @@ def run(ctx, model_ok, deep=False):
                 if len(eo) < 2 or "err=0" not in eo[1] or " err=0 " not in (" " + eo[1] + " "):
                     V("falsifier:cli-import", "the library does not import key2jwk's JWK for a %s key cleanly: %s" % (spec, eo[-1:] and eo[-1][:120]))
                 # jwk2key writes back the identical key
+                if key.kind == "oct":
+                    jf = os.path.join(d, "conv.json")
+                    open(jf, "wb").write(out)
+                    od = tempfile.mkdtemp(dir=d)
+                    rc4, _, err4 = tool(ctx, "jwk2key", ["-d", od, jf])
+                    files = glob.glob(os.path.join(od, "*"))
+                    if rc4 != 0 or len(files) != 1 or open(files[0], "rb").read() != key.k:
+                        V("falsifier:cli-jwk2key", "jwk2key did not write back the bytes of the %s key file (status %d)" % (spec, rc4))
                 if key.kind != "oct":
                     jf = os.path.join(d, "conv.json")
                     open(jf, "wb").write(out)
